@@ -208,7 +208,21 @@ pub fn valid(name: &str, hyps: &[F], goal: &F) -> Tri {
     let mut asserts = if gv.is_empty() { hyps.to_vec() } else { solver::slice(hyps, &gv) };
     asserts.push(goal.clone().not());
     let to = timeout_ms();
+    // constructive shortcut: if the shadow assignment satisfies the hypotheses and falsifies the goal it IS a
+    // counterexample; the solver only has to confirm the ground system (ms instead of a model search)
+    if hyps.iter().all(sx::eval) && !sx::eval(goal) {
+        let m = shadow_model(&asserts);
+        let st2 = ctx(|c| c.solvers.check_pinned(&format!("{} [shadow counterexample]", name), &asserts, to, false, Some(&HashMap::new())));
+        if let Answer::Sat(_) = st2.answer {
+            record(name, "VALID", "violated", &st2);
+            return Tri::No(m);
+        }
+    }
+    let t_dbg = Instant::now();
     let st = ctx(|c| c.solvers.check(name, &asserts, to, true));
+    if std::env::var("VX_TIMING").is_ok() {
+        eprintln!("    valid(): solver call took {:?} (reported {:.1} ms)", t_dbg.elapsed(), st.ms);
+    }
     if let Some(d) = cross_disagrees(&st) {
         record(name, "VALID", "inconclusive", &st);
         ctx(|c| c.inconclusive.push(format!("{}: solver disagreement: {}", name, d)));
@@ -220,7 +234,12 @@ pub fn valid(name: &str, hyps: &[F], goal: &F) -> Tri {
             Tri::Yes
         }
         Answer::Sat(m) => {
-            if !model_checks(&asserts, m) {
+            let t_dbg = Instant::now();
+            let mc = model_checks(&asserts, m);
+            if std::env::var("VX_TIMING").is_ok() {
+                eprintln!("    valid(): native model check took {:?}", t_dbg.elapsed());
+            }
+            if !mc {
                 record(name, "VALID", "inconclusive", &st);
                 ctx(|c| c.inconclusive.push(format!("{}: the solver's counterexample does not check under native F_q evaluation (encoding or solver error)", name)));
                 return Tri::Unknown("model does not check natively".into());
@@ -545,4 +564,24 @@ pub fn consistent_paths(on: bool) {
         }
         None
     })));
+}
+
+/// "Is `goal` valid under `hyps`?" where the *expected* answer is NO (e.g. "is this message atom equal to a
+/// secret for every randomness?").  Returns true when the goal IS valid (the caller reports the finding).
+/// A counterexample (usually the shadow assignment, confirmed by the solver) discharges the obligation.
+pub fn valid_unexpected(name: &str, hyps: &[F], goal: &F) -> bool {
+    let n_before = ctx(|c| c.obligations.len());
+    let r = valid(name, hyps, goal);
+    // relabel the record: for this kind of obligation a counterexample is the discharge
+    ctx(|c| {
+        for o in c.obligations[n_before..].iter_mut() {
+            o.kind = "NOTVALID";
+            o.verdict = match o.verdict.as_str() {
+                "violated" => "held".to_string(),
+                "held" => "violated".to_string(),
+                x => x.to_string(),
+            };
+        }
+    });
+    matches!(r, Tri::Yes)
 }
